@@ -29,15 +29,18 @@ def embedTail (outer i : Sorted) (uva uvk : Bool) (depth : Nat) : Except Err Sor
   let ePok := ePok ++ i.pok
   let nm ← checkNoDupes nm outer.kwo
   let eKwo := pupdate [] outer.kwo
-  let _ ← checkNoDupes nm i.kwo
+  let nm ← checkNoDupes nm i.kwo
   let eKwo := pupdate eKwo i.kwo
+  let eVa := if uva then i.va else outer.va
+  let eVk := if uvk then i.vk else outer.vk
+  let nm ← checkNoDupes nm eVa.toList
+  let _ ← checkNoDupes nm eVk.toList
   let oSrc := outer.src
   let oSrc := match outer.va with | some p => if uva then dpop oSrc p.name else oSrc | none => oSrc
   let oSrc := match outer.vk with | some p => if uvk then dpop oSrc p.name else oSrc | none => oSrc
   let src := dupdate i.src oSrc
   let depths := mergeDepths outer.depths (copyDepths i.depths depth)
-  pure { pos := ePos, pok := ePok, va := if uva then i.va else outer.va,
-         kwo := eKwo, vk := if uvk then i.vk else outer.vk, src := src, depths := depths }
+  pure { pos := ePos, pok := ePok, va := eVa, kwo := eKwo, vk := eVk, src := src, depths := depths }
 
 theorem embedStep_eq (outer inner : Sorted) (uva uvk : Bool) (depth : Nat) :
     embedStep outer inner uva uvk depth =
@@ -68,7 +71,9 @@ def embedTailC (O i : Sorted) (uva uvk : Bool) : Except Err Sorted := do
   let nm ← checkNoDupes nm i.pos
   let nm ← checkNoDupes nm i.pok
   let nm ← checkNoDupes nm O.kwo
-  let _ ← checkNoDupes nm i.kwo
+  let nm ← checkNoDupes nm i.kwo
+  let nm ← checkNoDupes nm (if uva then i.va else O.va).toList
+  let _ ← checkNoDupes nm (if uvk then i.vk else O.vk).toList
   pure { pos := ePosC O i, pok := ePokC O i, va := if uva then i.va else O.va,
          kwo := pupdate (pupdate [] O.kwo) i.kwo, vk := if uvk then i.vk else O.vk }
 
@@ -115,9 +120,17 @@ theorem embedTail_eq (O i : Sorted) (uva uvk : Bool) (d : Nat) :
               cases h6 : checkNoDupes nm5 i.kwo with
               | error e => simp [Except.map]
               | ok nm6 =>
-                simp only [Except.map, ePosC, ePokC, hp, innerFirstRequired, cdIf]
-                simp
-                rfl
+                simp only
+                cases h7 : checkNoDupes nm6 (if uva = true then i.va else O.va).toList with
+                | error e => simp [Except.map]
+                | ok nm7 =>
+                  simp only
+                  cases h8 : checkNoDupes nm7 (if uvk = true then i.vk else O.vk).toList with
+                  | error e => simp [Except.map]
+                  | ok nm8 =>
+                    simp only [Except.map, ePosC, ePokC, hp, innerFirstRequired, cdIf]
+                    simp
+                    rfl
     | nil =>
       simp only [checkNoDupes_nil]
       cases h2 : checkNoDupes nm1 O.pok with
@@ -139,9 +152,17 @@ theorem embedTail_eq (O i : Sorted) (uva uvk : Bool) (d : Nat) :
                 cases h6 : checkNoDupes nm5 i.kwo with
                 | error e => simp [Except.map]
                 | ok nm6 =>
-                  simp only [Except.map, ePosC, ePokC, hp, hq, innerFirstRequired, cdIf]
-                  simp [hd]
-                  rfl
+                  simp only
+                  cases h7 : checkNoDupes nm6 (if uva = true then i.va else O.va).toList with
+                  | error e => simp [Except.map]
+                  | ok nm7 =>
+                    simp only
+                    cases h8 : checkNoDupes nm7 (if uvk = true then i.vk else O.vk).toList with
+                    | error e => simp [Except.map]
+                    | ok nm8 =>
+                      simp only [Except.map, ePosC, ePokC, hp, hq, innerFirstRequired, cdIf]
+                      simp [hd]
+                      rfl
           · simp only [hd, if_false, Bool.false_eq_true]
             cases h4 : checkNoDupes nm2 (q0 :: t) with
             | error e => simp [Except.map]
@@ -154,9 +175,17 @@ theorem embedTail_eq (O i : Sorted) (uva uvk : Bool) (d : Nat) :
                 cases h6 : checkNoDupes nm5 i.kwo with
                 | error e => simp [Except.map]
                 | ok nm6 =>
-                  simp only [Except.map, ePosC, ePokC, hp, hq, innerFirstRequired, cdIf]
-                  simp [hd]
-                  rfl
+                  simp only
+                  cases h7 : checkNoDupes nm6 (if uva = true then i.va else O.va).toList with
+                  | error e => simp [Except.map]
+                  | ok nm7 =>
+                    simp only
+                    cases h8 : checkNoDupes nm7 (if uvk = true then i.vk else O.vk).toList with
+                    | error e => simp [Except.map]
+                    | ok nm8 =>
+                      simp only [Except.map, ePosC, ePokC, hp, hq, innerFirstRequired, cdIf]
+                      simp [hd]
+                      rfl
         | nil =>
           simp only [checkNoDupes_nil]
           cases h5 : checkNoDupes nm2 O.kwo with
@@ -166,8 +195,16 @@ theorem embedTail_eq (O i : Sorted) (uva uvk : Bool) (d : Nat) :
             cases h6 : checkNoDupes nm5 i.kwo with
             | error e => simp [Except.map]
             | ok nm6 =>
-              simp only [Except.map, ePosC, ePokC, hp, hq, innerFirstRequired, cdIf]
-              simp
-              rfl
+              simp only
+              cases h7 : checkNoDupes nm6 (if uva = true then i.va else O.va).toList with
+              | error e => simp [Except.map]
+              | ok nm7 =>
+                simp only
+                cases h8 : checkNoDupes nm7 (if uvk = true then i.vk else O.vk).toList with
+                | error e => simp [Except.map]
+                | ok nm8 =>
+                  simp only [Except.map, ePosC, ePokC, hp, hq, innerFirstRequired, cdIf]
+                  simp
+                  rfl
 
 end SV
